@@ -6,7 +6,8 @@ canonical form that mirrors the constructors of coq/Model/Session.v ([out]).
 input  : {"fw": "tx"|"aio", "cases": [{"cfg": {...}, "ops": [[name, ...], ...]}, ...]}
 output : {"results": [{"trace": [[event, ...] per op], "futures": {label: state}, "tables": {...}} ...], "hist": {...}}
 
-ops (see OPS below): transport events (open / lost / turn), user API (call / publish / subscribe / register /
+ops: ["inline", api_op, router_msg] = the router message is delivered re-entrantly from inside transport.send() of
+the request (loopback / in-process router link); transport events (open / lost / turn), user API (call / publish / subscribe / register /
 unsubscribe j / unregister j / cancel j / leave / disconnect; j = index of the j-th future an API call RETURNED),
 router messages as wire-level lists parsed by the real message classes.
 
@@ -142,6 +143,7 @@ class Transport:
         self.log, self.lenient = log, lenient
         self.closed = False      # close() called
         self.lost = False
+        self.inline = None       # one-shot: router reply delivered re-entrantly from inside send() (loopback link)
         self.transport_details = types.TransportDetails()
         self.is_closed = txaio.create_future()
         from autobahn.wamp.serializer import JsonSerializer
@@ -151,6 +153,9 @@ class Transport:
         m = canon_msg(msg)
         if not self.closed and not self.lost:
             self.log.append(["sent", m])
+            if self.inline is not None and m[0] in ("publish", "subscribe", "unsubscribe", "call", "register", "unregister"):
+                deliver, self.inline = self.inline, None
+                deliver()          # the reply is processed by session.onMessage while the API call is still in send()
         elif self.lenient and not self.lost:
             self.log.append(["dropped", m])
         else:
@@ -353,6 +358,13 @@ class Runner:
                             self._loop_exc(ctx)
             else:
                 env.turn()
+        elif name == "inline":
+            # ["inline", api_op, router_msg]: the router message is fed into onMessage from inside transport.send()
+            self.t.inline = lambda r=o[2]: self.op(r)
+            try:
+                self.op(o[1])
+            finally:
+                self.t.inline = None
         elif name == "call":
             _, u, a, kw, opt = o
             kwargs = kw_dict(kw)
